@@ -1,14 +1,20 @@
 #!/bin/sh
-# tools/detection_sweep.sh : run, for every seeded change under /verif/seeded, its own property's quick check
-# (plus the related checks listed in tools/seeded_related.txt) in a scratch worktree; writes seeded/RESULTS.tsv
+# tools/detection_sweep.sh [name-prefix] : run, for every seeded change under /verif/seeded (optionally only
+# those whose directory name starts with the prefix, e.g. R2-), its own property's quick check plus the
+# related checks listed in tools/seeded_related.txt, in a scratch worktree; rewrites those rows of
+# seeded/RESULTS.tsv and then refreshes meta.json/RESULTS.json with tools/seeded_meta.py
 DIR=$(cd "$(dirname "$0")/.." && pwd)
 OUTF=$DIR/seeded/RESULTS.tsv
-: > $OUTF
-for d in $DIR/seeded/C*-*; do
-  name=$(basename $d); own=${name%%-*}
+PFX=${1:-}
+touch $OUTF
+for d in $DIR/seeded/${PFX}*C[0-9][0-9]-*; do
+  name=$(basename $d); base=${name#R2-}; own=${base%%-*}
+  grep -v "^$name	" $OUTF > $OUTF.tmp; mv $OUTF.tmp $OUTF
   rel=$(grep "^$name " $DIR/tools/seeded_related.txt | cut -d' ' -f2-)
   for id in $own $rel; do
     r=$($DIR/tools/try_mutant.sh $d/patch.diff $id | tail -1)
     echo "$name	$id	$r" | tee -a $OUTF
   done
 done
+sort -o $OUTF $OUTF
+python3 $DIR/tools/seeded_meta.py
